@@ -5,6 +5,8 @@ import docgen, parseharness as P
 
 
 def mk_case(ctx, s, tol, origin):
+    if ctx in docgen.UNMODELLED_CONTEXTS:
+        return {'wire': [999], 'desc': {'ctx': ctx, 's': s, 'tolerant': tol, 'origin': origin}, 'nt': None}
     if ctx == 'default':
         wire = P.w_parse_default(s, tol)
     else:
@@ -63,6 +65,8 @@ def stream(seed, tier, modes=(False, True), contexts=None, exh_len=None, n_soup=
 
 def impl_parse(c):
     d = c['desc']
+    if d['ctx'] in docgen.UNMODELLED_CONTEXTS:
+        return 'BADIN'
     return P.parse_top(d['s'], d['tolerant'], docgen.make_db(d['ctx']))
 
 
